@@ -277,9 +277,20 @@ package ech
 //@       invariant[L:noerr] !berr(b)
 //@       invariant[L:prefix] forall(j, 9, len(bbuf(b)), j != 5 + chExOff(m) && j != 6 + chExOff(m) ==> mem(bbuf(b), j) == m[j-5])
 
+// Provenance of the derived fields: a successful parseExtensions records (ghost) the extension list it read and the
+// server name / ALPN list it derived from it. A hello whose list was replaced afterwards, or whose derived fields were
+// overwritten, no longer matches its record.
+//@ ghost extSrc(c any) []extension
+//@ ghost sniAt(c any) string
+//@ ghost alpnAt(c any) []string
+//@ pure derivedOK(c *clientHello) bool = extSrc(c) == c.Extensions && sniAt(c) == c.ServerName && alpnAt(c) == c.ALPNProtos
 //@ func clientHello.parseExtensions returns (err)
 //@   requires c != nil
-//@   modifies c.ServerName, c.ALPNProtos, c.hasECHOuterExtensions, c.tls13, c.echExt
+//@   modifies c.ServerName, c.ALPNProtos, c.hasECHOuterExtensions, c.tls13, c.echExt, extSrc(c), sniAt(c), alpnAt(c)
+//@   ghostset extSrc(c) = ite(err == nil, c.Extensions, extSrc(c))
+//@   ghostset sniAt(c) = ite(err == nil, c.ServerName, sniAt(c))
+//@   ghostset alpnAt(c) = ite(err == nil, c.ALPNProtos, alpnAt(c))
+//@   ensures[F:derived] err == nil ==> derivedOK(c)
 //@   allocates echExt
 //@   terminates
 //@   use firstFromProps
@@ -299,6 +310,7 @@ package ech
 //@   ensures[S:nonnil] err == nil ==> hello != nil && fresh(hello) && echInv(hello) && (hello.echExt != nil ==> hello.echExt.Type <= 1)
 //@   ensures[S:echunique] err == nil ==> echUnique(hello) && (hello.echExt != nil) == (echIdx(hello) < len(hello.Extensions))
 //@   ensures[L:parsed] err == nil ==> parsedFrom(hello, buf)
+//@   ensures[F:derived] err == nil ==> derivedOK(hello)
 //@   ensures[F:padding] err == nil && hello.echExt != nil && hello.echExt.Type == 1 ==> forall(j, offset(buf) + chExStart(buf) + chExLen(buf), offset(buf) + len(buf), mem(buf, j) == 0)
 //@   loop 2 "range s"
 //@     invariant[F:zeros] forall(j, offset(s), offset(s) + ri2, mem(s, j) == 0)
@@ -397,6 +409,7 @@ package ech
 //@   ensures[F:public-name] inner != nil ==> exists(i, 0, len(c.keys), cfgValid(c.keys[i].Config) && int(c.keys[i].Config[4]) == int(h.echExt.ConfigID) &&
 //@       bytesEq(window(c.keys[i].Config, cfgPnOff(c.keys[i].Config), cfgPnLen(c.keys[i].Config)), h.ServerName))
 //@   check[L:spliced-final] inner != nil ==> inner.Extensions == newExt
+//@   ensures[F:reported-from-reconstructed] inner != nil ==> derivedOK(inner)
 //@   check[L:session-id] inner != nil ==> inner.LegacySessionID == h.LegacySessionID
 //@   check[L:head-from-payload] inner != nil ==> int(inner.LegacyVersion) == be16(msg, 4) && bytesEq(inner.Random, window(msg, 6, 32)) &&
 //@       bytesEq(inner.CipherSuite, window(msg, chCsOff(msg) + 2, chCsLen(msg))) && bytesEq(inner.LegacyCompressionMethods, window(msg, chCmOff(msg) + 1, chCmLen(msg)))
@@ -434,6 +447,7 @@ package ech
 //@     ensures[F:nomatch-only-if-none-opens] err == errNoMatch ==> forall(i, 0, len(c.keys), !keyOpens(c.keys[i], h, aadv), trig(c.keys[i]))
 //@     ensures[F:first-opening-key] inner != nil ==> exists(i, 0, len(c.keys), keyOpens(c.keys[i], h, aadv) && hid(c.hpkeCtx) == keySetup(c.keys[i], h) && forall(u, 0, i, !keyOpens(c.keys[u], h, aadv), trig(c.keys[u])))
 //@     ensures[F:opening-key-never-falls-back] (inner == nil && (err == nil || err == errNoMatch)) ==> forall(i, 0, len(c.keys), !keyOpens(c.keys[i], h, aadv), trig(c.keys[i]))
+//@     ensures[F:abort-only-after-opening] err != nil && err != errNoMatch && !liberr(err) ==> exists(i, 0, len(c.keys), keyOpens(c.keys[i], h, aadv) && forall(u, 0, i, !keyOpens(c.keys[u], h, aadv), trig(c.keys[u])))
 //@     loop 1 "range c.keys"
 //@       invariant[F:none-opened] forall(i, 0, ri1, !keyOpens(c.keys[i], h, aadv), trig(c.keys[i]))
 
